@@ -61,6 +61,8 @@ A64 = [
     ("str", ["x", "mS"], ["s", "d"], [], []), ("str", ["d", "mS"], ["s", "d"], [], []),
     ("ldp", ["x", "x", "mL"], ["d", "d", "s"], [], []), ("stp", ["x", "x", "mS"], ["s", "s", "d"], [], []),
     ("ldr", ["x", "mPost"], ["d", "s"], [], []), ("ldr", ["d", "mPre"], ["d", "s"], [], []),
+    ("ldr", ["d", "mPost"], ["d", "s"], [], []), ("ldr", ["q", "mPost"], ["d", "s"], [], []),
+    ("str", ["d", "mPost"], ["s", "d"], [], []),
 ]
 X_G = {"A": ["rax", "eax"], "B": ["rbx", "ebx"], "C": ["rcx", "ecx"], "D": ["rdx", "edx"], "R8": ["r8", "r8d"],
        "BP": ["rbp", "ebp"]}
@@ -101,9 +103,11 @@ def operand(draw, isa, kind, line):
         return {"t": "[x10, #%d]" % (4 * 8 + 64 * draw(st.integers(0, 3))), "fam": None, "addr": []}
     if kind == "mS":
         return {"t": "[x10, #%d]" % (16 + 64 * draw(st.integers(0, 3))), "fam": None, "addr": []}
+    # write-back base: often a register number that is also used for data registers of the other register file
+    nb = draw(st.sampled_from([11, 1, 2, 3]))
     if kind == "mPost":
-        return {"t": "[x11], #8", "fam": None, "addr": [], "wb": "g11"}
-    return {"t": "[x11, #16]!", "fam": None, "addr": [], "wb": "g11"}
+        return {"t": "[x%d], #8" % nb, "fam": None, "addr": [], "wb": "g%d" % nb}
+    return {"t": "[x%d, #16]!" % nb, "fam": None, "addr": [], "wb": "g%d" % nb}
 
 
 @st.composite
